@@ -181,14 +181,15 @@ static std::string step(const std::string& line) {
     return s ? std::to_string(s->section_id()) : std::string("none");
   }
   if (w[0] == "jitadd") {
-    JitRuntime rt;
+    // the allocator pre-fills its memory with a non-zero pattern, so that the zero fill of virtual tails is observable
+    JitAllocator::CreateParams params;
+    params.options = JitAllocatorOptions::kFillUnusedMemory;
+    params.fill_pattern = 0xA7A7A7A7u;
+    JitRuntime rt(&params);
     void* fn = nullptr;
-    Error e = rt._add(&fn, &c);
+    Error e = rt.add(&fn, &c);
     if (e != Error::kOk) return err_name(e);
     size_t n = c.code_size();
-    // When the final size is 0 (only unused address-table entries) JitRuntime::_add has already released the span
-    // (shrink to 0) and still returns kOk with the stale pointer: nothing to read, and releasing it again is a crash.
-    if (n == 0) return "ok -";
     std::string out = "ok " + rle(static_cast<const uint8_t*>(fn), n);
     rt.release(fn);
     return out;
